@@ -54,6 +54,12 @@ package httpserver
 // the window serves an overlapping request; /.well-known/acme-challenge/ is not
 // requested.
 //
+// Mode pipe, Proxy variants 6/7 (c11_resil_test.go): the resilience section of
+// the pipeline spec (retry / circuit breaker policies referenced by the pools,
+// pool timeout, failureCodes) across hot updates, made observable by backends
+// whose first attempts fail, judged by a reference model of the held
+// generation's spec; classes C11.pipe.resilience-{attempts,status,server,breaker}/Proxy.
+//
 // Known finding on the unchanged tree (mode pipe): C11.old-generation-panic/RateLimiter
 // (filters/ratelimiter reload() moves the limiter to the new generation and sets
 // prev.rl = nil; a request that entered the old generation before the update
@@ -1035,7 +1041,9 @@ func TestVerifC11(t *testing.T) {
 		DeadlockClass: "C11.deadlock",
 		Rule: "a scenario is one of four modes (mux 35%, pipe 35%, tc 15%, rt 15%; rt = the mux scenario shape against a LISTENING HTTPServer runtime over the simulated network: raw HTTP/1.1 clients, only hot fields change, no dial may be refused and no connection may end without a response). mux: chain of 2-5 HTTPServer specs derived from one another by 0-3 edits (rules, rewrite targets, xForwardedFor, body limits, IP filters at three levels, cache size, identical re-apply), " +
 			"one updater task calling mux.reload, 1-4 client tasks with 4-24 requests whose backend handlers park; pipe: one filter kind under test (RateLimiter, Proxy, Mock, Request/ResponseAdaptor, Validator, Fallback, CORSAdaptor, Request/ResponseBuilder, HeaderToJSON, CertExtractor) in a real Pipeline, " +
-			"2-4 generations (Init, then Inherit which closes the previous one; 15% of the updates keep the NAME of the filter under test and change its KIND), requests park before / inside / after the filter under test while the updater inherits; tc: real TrafficController with a real HTTPServer object and Pipelines A,B,C, two updater tasks issuing create/apply/update/delete (and identical re-apply) on disjoint names, requests and GetHandler lookups; " +
+			"2-4 generations (Init, then Inherit which closes the previous one; 15% of the updates keep the NAME of the filter under test and change its KIND), requests park before / inside / after the filter under test while the updater inherits; " +
+			"65% of the Proxy scenarios are resilience-observable (Proxy variants 6/7: main pool and optional candidate pool, each with retry policy maxAttempts 2-3 / none, circuit breaker none / ample / tight, timeout 1h / none, failureCodes [503] / none, 3 server sets; updates keep / add / remove / change each of them or change something else while they stay; " +
+			"75% of the requests carry a backend script: the first 1-3 attempts fail by connection error, status 503 or by answering after 2h), judged by a reference model of the held generation's spec (attempt count, final status, servers, short-circuiting); tc: real TrafficController with a real HTTPServer object and Pipelines A,B,C, two updater tasks issuing create/apply/update/delete (and identical re-apply) on disjoint names, requests and GetHandler lookups; " +
 			"non-trivial = a request overlapped an update that changes its answer, or ran on a generation that had already been inherited from / closed, or started after an update that changes its answer; distinct = distinct (specs, ordered request/answer history)",
 		Real: []string{"pkg/object/httpserver mux (newMux, reload, ServeHTTP, search, cache), runtime + HTTPServer object (mode tc)", "pkg/object/pipeline Pipeline (Init, Inherit, Close, Handle)", "pkg/object/trafficcontroller (Create/Apply/Update/Delete Pipeline and TrafficGate, Namespace.GetHandler)",
 			"pkg/filters: ratelimiter, proxy (pools, load balancers, memory cache, resilience wrappers), mock, requestadaptor, responseadaptor, validator, fallback, corsadaptor, builder, headertojson, certextractor", "pkg/supervisor Spec / ObjectEntity", "pkg/util/ratelimiter, pkg/util/ipfilter, pkg/protocols/httpprot, pkg/context"},
@@ -1045,6 +1053,8 @@ func TestVerifC11(t *testing.T) {
 			"oracle = quiescent twins of the same code: one never-updated instance per generation answers every request of the scenario before traffic starts",
 			"mode mux: a request may be answered by any ONE generation g with (reloads returned at its start) <= g <= (reloads started when its backend handler was entered); all observed fields must come from that one generation",
 			"mode pipe: a request is compared with the twin of the generation whose Handle it entered; for RateLimiter a 429 is accepted besides the permitted answer (limiter state is inherited); for Proxy any server of the held generation's pool is accepted",
+			"mode pipe, resilience: a request is judged by the spec of the generation whose Handle it entered (attempts = first non-failing attempt, at most maxAttempts; failing = transport error, attempt longer than the pool timeout, status in failureCodes); final status 200 / the backend's 503 / any 5xx for a transport error / any 4xx-5xx for a timeout (the documents name no status); " +
+				"the pool timeout (1h) and a slow attempt (2h) are far apart because stall decisions may add up to 20 min of virtual time anywhere; a tight breaker (window 2, 100%, open 1000h) is judged exactly only while the calls of its (generation, pool) are strictly sequential and the previous generation had no tight breaker on that pool (the statement does not say whether breaker state survives an update), otherwise a 5xx without backend attempt and the normal answer are both accepted; twins get the ample breaker",
 			"mode tc: 'applied' for an HTTPServer update means its runtime has processed the reload event (observed by the updater polling the mux instance); a request that overlaps create/delete of its pipeline may get 503 or an answer",
 			"not generated: tracing, globalFilter, HTTPS, mirror pools, service discovery, filters that need a cluster / broker / wasm runtime / remote endpoint (HeaderLookup, Kafka, MQTT kinds, WasmHost, RemoteFilter), Validator basicAuth (real files)",
 		},
